@@ -33,6 +33,7 @@ def replay(rec):
         par = ocp.parameter(); ocp.set_value(par, 0.25)
         ocp.subject_to(chain[0] + chain[1] <= 8 + 4 * par, refine=r, include_first=bool(sc.get('incF', True)), include_last=bool(sc.get('incL', True)), meta=meta('path'))
         ocp.subject_to(ocp.next(chain[0]) - chain[0] <= 6, meta=meta('step'))
+        ocp.subject_to(chain[0] - ocp.prev(chain[0]) <= 6 + ocp.t, meta=meta('stepb'))
         ocp.subject_to(ocp.at_t0(chain[0]) == 2 * par, meta=meta('bnd0'))
         ocp.subject_to(ocp.at_tf(chain[1]) == -1, meta=meta('bndf'))
         ocp.add_objective(ocp.at_tf(chain[0]) ** 2 + ocp.sum(chain[-1] ** 2))
@@ -102,10 +103,10 @@ def replay(rec):
                 if np.isfinite(lb[i]): by.setdefault(cid, []).append(g[i] - lb[i])
         # SplineMethod does not forward the call-site metadata of path constraints: they are the untagged rows
         # (a free horizon brings its own untagged row T >= 0, whose slack at the probe is T)
-        res.append(('C17.c:rows:path',) + bag_compare(by.get('path', []) + by.get('step', []) + by.get(None, []), rec['path'] + rec['step'] + ([sc['T']] if free else [])))
+        res.append(('C17.c:rows:path',) + bag_compare(by.get('path', []) + by.get('step', []) + by.get('stepb', []) + by.get(None, []), rec['path'] + rec['step'] + rec['stepb'] + ([sc['T']] if free else [])))
         res.append(('C17.c:rows:bnd0',) + bag_compare(by.get('bnd0', []), [rec['bnd0']], absval=True))
         res.append(('C17.c:rows:bndf',) + bag_compare(by.get('bndf', []), [rec['bndf']], absval=True))
-        extra = [k for k in by if k not in ('path', 'step', 'bnd0', 'bndf', None)]
+        extra = [k for k in by if k not in ('path', 'step', 'stepb', 'bnd0', 'bndf', None)]
         res.append(('C17.c:rows:extra', 'ok' if not extra else 'mismatch', 'unexplained row groups %s' % extra))
         if r >= 2 and sc.get('incF', True) and sc.get('incL', True):      # (grouped() reads the values at *all* refined points from rec['path'])
             res.extend(grouped(rec, nodes, grid_fun))
